@@ -4,7 +4,7 @@ use noulith::nnum::NNum;
 use noulith::{Assoc, Obj, Rc, Seq};
 use serde_json::{json, Value};
 
-const MAX_DEPTH: usize = 40;
+const MAX_DEPTH: usize = 256;
 const STREAM_HEAD: usize = 64;
 
 fn hex(b: &[u8]) -> String {
